@@ -198,15 +198,45 @@ impl Prop for Interpolation {
         let nstreams = engine.voices.global_metadata().num_streams;
         {
             let iw = engine.condition.get_interporation_weight_mut();
-            if let Err(e) = iw.set_duration(&c.w_duration) {
-                fail!("valid-weights-rejected", "set_duration({:?}) rejected: {}", c.w_duration, e);
-            }
-            for i in 0..nstreams {
-                if let Err(e) = iw.set_parameter(i, &c.w_parameter[i]) {
-                    fail!("valid-weights-rejected", "set_parameter({}, {:?}) rejected: {}", i, c.w_parameter[i], e);
+            // the three kinds of weights are independent settings: the order of the calls (and
+            // re-sending one of them) must not matter
+            let dur = |iw: &mut jbonsai::model::interporation_weight::InterporationWeight| -> Result<(), Failure> {
+                iw.set_duration(&c.w_duration).map_err(|e| Failure::new("valid-weights-rejected", format!("set_duration({:?}) rejected: {}", c.w_duration, e)))
+            };
+            let par = |iw: &mut jbonsai::model::interporation_weight::InterporationWeight, i: usize| -> Result<(), Failure> {
+                iw.set_parameter(i, &c.w_parameter[i]).map_err(|e| Failure::new("valid-weights-rejected", format!("set_parameter({}, {:?}) rejected: {}", i, c.w_parameter[i], e)))
+            };
+            let gv = |iw: &mut jbonsai::model::interporation_weight::InterporationWeight, i: usize| -> Result<(), Failure> {
+                iw.set_gv(i, &c.w_gv[i]).map_err(|e| Failure::new("valid-weights-rejected", format!("set_gv({}, {:?}) rejected: {}", i, c.w_gv[i], e)))
+            };
+            match c.access_order {
+                0 => {
+                    dur(iw)?;
+                    for i in 0..nstreams {
+                        par(iw, i)?;
+                        gv(iw, i)?;
+                    }
                 }
-                if let Err(e) = iw.set_gv(i, &c.w_gv[i]) {
-                    fail!("valid-weights-rejected", "set_gv({}, {:?}) rejected: {}", i, c.w_gv[i], e);
+                1 => {
+                    for i in (0..nstreams).rev() {
+                        gv(iw, i)?;
+                    }
+                    for i in 0..nstreams {
+                        par(iw, i)?;
+                    }
+                    dur(iw)?;
+                }
+                _ => {
+                    for i in 0..nstreams {
+                        par(iw, i)?;
+                        gv(iw, i)?;
+                    }
+                    dur(iw)?;
+                    // parameter and duration weights re-sent, GV weights not
+                    for i in 0..nstreams {
+                        par(iw, i)?;
+                    }
+                    dur(iw)?;
                 }
             }
         }
